@@ -1,11 +1,13 @@
 #!/bin/bash
-# tools/take_variants.sh <letter>...: stores the refactorings delivered under /tmp/rf5-<letter>-out as
-# variants/v5<letter><n>.{diff,md} and runs every check on each (SUITE=1: the whole suite must pass too).
+# R=<round> tools/take_variants.sh <letter>...: stores the refactorings delivered under
+# /tmp/rf<round>-<letter>-out as variants/v<round><letter><n>.{diff,md} and runs every check on
+# each (the whole suite must pass too).  Default round: 5.
+R=${R:-5}
 for k in "$@"; do
   for n in 1 2 3; do
-    [ -f /tmp/rf5-$k-out/v$n.diff ] || continue
-    cp /tmp/rf5-$k-out/v$n.diff /verif/variants/v5$k$n.diff
-    cp /tmp/rf5-$k-out/v$n.md /verif/variants/v5$k$n.md 2>/dev/null
+    [ -f /tmp/rf$R-$k-out/v$n.diff ] || continue
+    cp /tmp/rf$R-$k-out/v$n.diff /verif/variants/v$R$k$n.diff
+    cp /tmp/rf$R-$k-out/v$n.md /verif/variants/v$R$k$n.md 2>/dev/null
   done
-  SUITE=1 JOBS=${JOBS:-3} /verif/tools/try_variants.sh v5$k
+  SUITE=1 JOBS=${JOBS:-3} /verif/tools/try_variants.sh v$R$k
 done
